@@ -746,7 +746,110 @@ def oracle_spool(case) -> Result:
     return r
 
 
-SUBS = {"spool": oracle_spool, "limits": oracle_limits, "exact": oracle_exact, "default": oracle_default, "nolimit": oracle_nolimit,
+class _MinimalSyncSink:
+    """Exactly the published sync sink protocol (SyncUploadFileInterface): constructor, write, seek - nothing else."""
+
+    def __init__(self, filename, headers):
+        self.filename, self.headers, self.data = filename, headers, bytearray()
+
+    def write(self, data):
+        self.data += data
+
+    def seek(self, offset):
+        pass
+
+
+class _MinimalAsyncSink:
+    """Exactly the published async sink protocol (AsyncUploadFileInterface): constructor, awrite, aseek."""
+
+    def __init__(self, filename, headers):
+        self.filename, self.headers, self.data = filename, headers, bytearray()
+
+    async def awrite(self, data):
+        self.data += data
+
+    async def aseek(self, offset):
+        pass
+
+
+def _variant_form(spec):
+    """Parts without CR/LF in names and content (so that a body re-written with other line breaks stays unambiguous)."""
+    parts = []
+    for i, item in enumerate(spec):
+        kind, size = item
+        content = (b"%c" % (97 + i % 26)) * size
+        parts.append({"name": f"n{i}", "filename": (f"f{i}.bin" if kind == "file" else None), "headers": [], "content": content})
+    return {"boundary": "XbX", "charset": "utf-8", "preamble": None, "epilogue": None, "padding": b"", "parts": parts}
+
+
+def oracle_variants(case) -> Result:
+    """The limit verdicts again (a) with sinks that implement exactly the published protocol and (b) for bodies whose line
+    breaks are bare LF or bare CR, which the decoder documents as tolerated: 413 <=> over a limit; refusing such a body as
+    malformed (any other 4xx) is accepted too, parsing it with the wrong verdict is not."""
+    r = Result()
+    form = _variant_form(case["parts"])
+    body = ref.encode(form)
+    lb = case.get("linebreak", "crlf")
+    if lb != "crlf":
+        body = body.replace(b"\r\n", b"\n" if lb == "lf" else b"\r")
+    boundary = form["boundary"].encode("ascii")
+    n, t = totals(form)
+    chunkings = [[body]] + [[body[i:i + k] for i in range(0, len(body), k)] for k in case.get("chunk_sizes", (1, 7))]
+    runs = 0
+    for mp in (max(n - 1, 0), n, n + 1):
+        for mm in (max(t - 1, 0), t, t + 1, None):
+            want = 413 if (n > mp or (mm is not None and t > mm)) else "ok"
+            for chunks in chunkings:
+                for which in ("sync", "async"):
+                    factory = {"real": UploadFile, "minimal": _MinimalSyncSink if which == "sync" else _MinimalAsyncSink}[case.get("sink", "real")]
+                    runs += 1
+                    try:
+                        if which == "sync":
+                            items = parse_stream(iter(chunks), boundary, "utf-8", file_factory=factory, max_form_parts=mp, max_form_memory_size=mm)
+                        else:
+
+                            async def stream(chunks=chunks):
+                                for c in chunks:
+                                    yield c
+
+                            items = drive(parse_async_stream(stream(), boundary, "utf-8", file_factory=factory, max_form_parts=mp, max_form_memory_size=mm))
+                        got = "ok"
+                        if len(items) != n:
+                            got = f"ok-but-{len(items)}-items"
+                        for _, v in items:
+                            if isinstance(v, UploadFile):
+                                v.close()
+                    except HTTPException as exc:
+                        got = 413 if exc.status_code == 413 else f"http-{exc.status_code}"
+                    if got == want or (lb != "crlf" and isinstance(got, str) and got.startswith("http-4")):
+                        continue
+                    r.fail(
+                        f"C15:variants:{which}:{case.get('sink', 'real')}-sink:{lb}:expected-{want}-got-{got}",
+                        f"{case!r}: n={n} parts, T={t} field bytes, max_form_parts={mp}, max_form_memory_size={mm}, {len(chunks)} chunk(s): "
+                        f"{which} helper -> {got!r}, expected {want!r}; body {body[:200]!r}",
+                    )
+        if len(r.failures) >= 3:
+            break
+    r.weight = runs
+    r.nontrivial = True
+    r.label(f"sink={case.get('sink', 'real')}", f"linebreak={lb}")
+    return r
+
+
+def variant_cases(quick):
+    shapes = [
+        [("field", 1)], [("field", 3), ("field", 2)], [("file", 5), ("field", 2)], [("field", 2), ("file", 5)], [("file", 4), ("file", 0), ("field", 1)],
+        [("field", 2), ("file", 3), ("field", 4), ("file", 1)], [("file", 3)], [("file", 2), ("file", 2), ("file", 2)], [("field", 0), ("field", 0)],
+    ]
+    for parts in shapes:
+        for sink in ("minimal", "real"):
+            for lb in ("crlf", "lf", "cr"):
+                if sink == "real" and lb == "crlf":
+                    continue  # that combination is what `exact` and `limits` run
+                yield {"parts": [list(p) for p in parts], "sink": sink, "linebreak": lb, "chunk_sizes": [1, 7] if quick else [1, 2, 3, 7, 64]}
+
+
+SUBS = {"variants": oracle_variants, "spool": oracle_spool, "limits": oracle_limits, "exact": oracle_exact, "default": oracle_default, "nolimit": oracle_nolimit,
         "lag": oracle_lag, "lag_grid": oracle_lag, "lag_small": oracle_lag, "lag_fill": oracle_lag, "lag_multi": oracle_lag, "lag_padded": oracle_lag,
         "formlag": oracle_formlag}
 
@@ -898,6 +1001,8 @@ def run(rec, only=None):
     rec.exhaustive["lag_padded"] = True
     core.drive_cases(rec, "formlag", formlag_grid(quick), oracle_formlag)
     rec.exhaustive["lag_small"] = rec.exhaustive["lag_fill"] = rec.exhaustive["lag_multi"] = rec.exhaustive["formlag"] = True
+    core.drive_cases(rec, "variants", variant_cases(quick), oracle_variants)
+    rec.exhaustive["variants"] = True
     core.drive_hypothesis(rec, "limits", limits_case(), oracle_limits, 250 if quick else 20000)
     core.drive_hypothesis(rec, "lag", lag_case(), oracle_lag, 80 if quick else 6000, seed_offset=1)
     rec.exhaustive["limits"] = rec.exhaustive["lag"] = False
